@@ -13,6 +13,7 @@ PROFILE = dict(
     sizes=[1, 2, 3, 4, 5, 6, 8],
     lengths=[2, 4, 6, 10],
     weights=dict(faulted=0.3, run=3, start=2.5, finish=2, sched_cancel=0.3, purge=0.5, acct_flush=0.3, modify_source=0.3,
+                 set_unpinned=0.6,
                  delete_output=0.3),
     p_job_ok=0.6, p_hashing=0.2, p_kill_streak=0.3,
 )
